@@ -79,6 +79,7 @@ def odd_shot(pbc, rng):
 
 def correspondence(chk, drv):
     pbc = import_repo()
+    U = pbc.Unit
     n = 40 if chk.tier == 'quick' else 3000
     from vlib.common import Corr
     from collections import Counter
@@ -90,6 +91,15 @@ def correspondence(chk, drv):
         cfg = limit_cfg(rng)
         calc = pbc.Calculator(_config=cfg)
         shot = odd_shot(pbc, rng)
+        if rng.random() < 0.2:
+            # the altitude floor and the drop floor (and sometimes the velocity floor) within a fraction of one step of each other: the
+            # stopping step crosses several limits at once
+            d = rng.choice([5.0, 30.0, rng.uniform(1, 200)])
+            cfg = {k: v for k, v in cfg.items() if k == 'max_calc_step_size_feet'}
+            cfg['cMaximumDrop'] = -d
+            cfg['cMinimumAltitude'] = (shot.atmo.altitude >> U.Foot) - d + rng.choice([0.0, 1e-3, -1e-3, rng.uniform(-0.05, 0.05)])
+            calc = pbc.Calculator(_config=cfg)
+            full = dict(pbc.interface_config.create_interface_config(cfg)._asdict())
         R = rng.choice([300.0, 1500.0, 6000.0])
         step = rng.choice([R / 10, 100.0, R])
         extra = rng.random() < 0.4
@@ -127,6 +137,15 @@ def search(chk, broken):
         calc = pbc.Calculator(_config=cfg)
         full = dict(pbc.interface_config.create_interface_config(cfg)._asdict())
         shot = odd_shot(pbc, rng)
+        if rng.random() < 0.2:
+            # the altitude floor and the drop floor (and sometimes the velocity floor) within a fraction of one step of each other: the
+            # stopping step crosses several limits at once
+            d = rng.choice([5.0, 30.0, rng.uniform(1, 200)])
+            cfg = {k: v for k, v in cfg.items() if k == 'max_calc_step_size_feet'}
+            cfg['cMaximumDrop'] = -d
+            cfg['cMinimumAltitude'] = (shot.atmo.altitude >> U.Foot) - d + rng.choice([0.0, 1e-3, -1e-3, rng.uniform(-0.05, 0.05)])
+            calc = pbc.Calculator(_config=cfg)
+            full = dict(pbc.interface_config.create_interface_config(cfg)._asdict())
         R = rng.choice([300.0, 1500.0, 6000.0])
         step = rng.choice([R / 10, 100.0])
         extra = rng.random() < 0.4
